@@ -1152,6 +1152,12 @@ func selectReverseStrategy(n *nfa.NFA, re *syntax.Regexp, literals *literal.Seq,
 		}
 	}
 
+	// Line anchors are look assertions, which the reverse NFA drops (like \b above):
+	// a reverse DFA hit would be taken for a match although ^ or $ does not hold.
+	if hasMultilineLineAnchor(re) {
+		return 0
+	}
+
 	// Check if prefix literals would produce a fast forward prefilter.
 	// If so, skip reverse optimizations (the overhead is not worth it).
 	//
